@@ -102,7 +102,15 @@ def _gen_invalid(rng, cfg, sess, salt):
                         [base, base + 5 * cap + ln, base + ln + 2]])  # (last one: goes backwards in a later file)
     elif cls == "wb_overlap":
         v = rng.random()
-        if v < 0.4:
+        if v < 0.25:
+            # exactly two blocks, the second one reaching back into the first
+            L = max(ln, 2)
+            ov = rng.randrange(1, L)
+            g = [base, base + L - ov]
+            b = [0, L]
+            n = 2 * L
+            return {"op": "wb", "g": g, "b": b, "len": n, "salt": salt, "invalid": cls}
+        if v < 0.5:
             g = [base, base + ln - 1 if ln > 1 else base + 0, base + 2 * ln + 12]
             if ln == 1:
                 b = [0, 2, 4]
@@ -202,6 +210,11 @@ def _gen_queries(rng, cfg, model, nq):
         if r > 0.6:
             q["sub"] = rng.randrange(cfg.nsub)
         qs.append(q)
+        if rng.random() < 0.15 and "split" not in q:
+            # get_bounds between two queries of the same reader object (it opens files of its own), the second
+            # query starting in the file the first one ended in and running to that file's end
+            lo_x, hi_x = cfg.window(cfg.file_T(b))
+            qs.append({"q": "rbr", "a": a, "b": b, "a2": max(a, lo_x), "b2": max(b, min(hi_x, b + 20000))})
         if rng.random() < 0.5:
             L = rng.choice([1, 1, cfg.nsub, 2, b - a + 1, rng.randrange(1, 50)])
             qs.append({"q": "vec", "a": a, "n": max(1, min(L, 5000)),
@@ -321,10 +334,13 @@ def gen_plan(prop, tier, rng, i):
             plan["sessions"][0]["prelude"] = dict(cfg.to_json(), kind=pk, order=">" if cfg.order == "<" or rng.random() < 0.7 else "<",
                                                   cstyle="real", nsub=1, continuous=True, compression=0, checksum=False,
                                                   channel="pre", uuid="prelude")
-    if len(plan["sessions"]) == 1 and not cfg.tz and rng.random() < (0.3 if prop == "C04" else 0.08):
+    if len(plan["sessions"]) == 1 and not cfg.tz and rng.random() < (0.3 if prop in ("C04", "C06") else 0.08):
         cap_ = cfg.typical_capacity()
         plan["sessions"][0]["companion"] = dict(cfg.to_json(), subdir_s=cfg.subdir_s * rng.choice([2, 10, 60]), nsub=1,
                                                 cstyle="real", channel="comp", uuid="companion", tz=None)
+        if rng.random() < 0.5:
+            # ... and another file cadence (the subdirectory cadence above is an even multiple, so it still divides)
+            plan["sessions"][0]["companion"]["file_ms"] = cfg.file_ms * 2
         plan["sessions"][0]["companion_step"] = rng.choice([2, cap_, 3 * cap_])
     if rng.random() < (0.15 if prop == "C11" else 0.04):
         plan["long_path"] = True
@@ -852,6 +868,15 @@ def _queries(ctx, readers, cfg, model, queries):
                         ctx.v("C08", "subchannel_column", "read(%d,%d,sub_channel=%d) is not column %d of the full read" % (a, b, sub, sub))
                     for (s, x) in part:
                         pass
+            elif q["q"] == "rbr":
+                # one reader object: read, get_bounds, read (nothing else in between)
+                ctx.emit(RC.read_vs_model(rd, cfg, model, q["a"], q["b"]))
+                bnd = rd.get_bounds(ch)
+                if tuple(bnd) != tuple(model.expected_bounds()):
+                    ctx.v("C08", "bounds", "get_bounds %s, first/last readable index is %s" % (bnd, model.expected_bounds()))
+                ctx.emit([(p_, c_, "[right after get_bounds] " + m_) for p_, c_, m_ in
+                          RC.read_vs_model(rd, cfg, model, q["a2"], q["b2"])])
+                res.probe("read_bounds_read_on_one_reader")
             elif q["q"] == "bounds":
                 bnd = rd.get_bounds(ch)
                 eb = model.expected_bounds()
